@@ -256,10 +256,17 @@ pub fn grammar_histories(thorough: bool, with_k: bool) -> (Vec<History>, serde_j
     (all, bound)
 }
 
-fn index_width_cases(coin: &'static Coin) -> Vec<(String, ChainBuilder)> {
+/// The special worlds. `only`: build just the world with that index (the others are listed with an empty chain).
+fn index_width_cases(coin: &'static Coin, only: Option<usize>) -> Vec<(String, ChainBuilder)> {
     // a transaction with many outputs spent at indices around the u8/u16 widths
     let mut v = Vec::new();
+    let want = |v: &Vec<(String, ChainBuilder)>| only.map_or(true, |o| o == v.len());
+    let skip = |v: &mut Vec<(String, ChainBuilder)>| v.push((String::new(), ChainBuilder::with_genesis(coin)));
     for (n_out, spend) in [(300usize, vec![0u32, 255, 256, 299]), (65_537, vec![255, 256, 65_535, 65_536])] {
+        if !want(&v) {
+            skip(&mut v);
+            continue;
+        }
         let mut cb = ChainBuilder::with_genesis(coin);
         let outs: Vec<TxOut> = (0..n_out).map(|i| TxOut { value: 1000 + i as u64, script: script::p2pkh(&script::h20((i % 251) as u8)) }).collect();
         let big = Tx { version: 1, segwit: false, inputs: vec![TxIn::spend([0xee; 32], 0)], outputs: outs, locktime: 0 };
@@ -270,7 +277,9 @@ fn index_width_cases(coin: &'static Coin) -> Vec<(String, ChainBuilder)> {
         v.push((format!("{}-outputs spent at {:?}", n_out, spend), cb));
     }
     // large values and long accumulation: per-address sums beyond 2^32, 2^53 and close to 2^64; 3000 outputs to one address
-    {
+    if !want(&v) {
+        skip(&mut v);
+    } else {
         let mut cb = ChainBuilder::with_genesis(coin);
         let a = script::p2pkh(&script::h20(77));
         let b = script::p2pkh(&script::h20(78));
@@ -291,7 +300,9 @@ fn index_width_cases(coin: &'static Coin) -> Vec<(String, ChainBuilder)> {
     // every address-carrying script kind, each paid twice (one of the two spent again) plus the address-less kinds:
     // P2PK with the generator point (a valid key), with arbitrary 33/65-byte keys (almost surely not curve points), P2PKH, P2SH,
     // P2WPKH, P2WSH, P2TR, future witness versions, bare multisig, OP_RETURN, empty and non-standard scripts
-    {
+    if !want(&v) {
+        skip(&mut v);
+    } else {
         let mut cb = ChainBuilder::with_genesis(coin);
         let g33 = refmodel::ser::unhex("0279be667ef9dcbbac55a06295ce870b07029bfcdb2dce28d959f2815b16f81798");
         let g65 = refmodel::ser::unhex("0479be667ef9dcbbac55a06295ce870b07029bfcdb2dce28d959f2815b16f81798483ada7726a3c4655da4fbfc0e1108a8fd17b448a68554199c47d08ffb10d4b8");
@@ -325,8 +336,46 @@ fn index_width_cases(coin: &'static Coin) -> Vec<(String, ChainBuilder)> {
         cb.push(vec![spender]);
         v.push((format!("{} script kinds (valid / invalid-point P2PK, P2PKH, P2SH, witness v0/v1/v2/v16, multisig, OP_RETURN, empty, non-standard), each paid twice and spent once", kinds.len()), cb));
     }
+    // transactions whose ids agree in their first 4 bytes / their last 4 bytes (birthday search over the lock time), and ids
+    // beginning / ending with zero bytes: one of each pair is spent, its twin must stay
+    if !want(&v) {
+        skip(&mut v);
+    } else {
+        let mut cb = ChainBuilder::with_genesis(coin);
+        let mk = |tag: u8, lt: u32| Tx { version: 1, segwit: false, inputs: vec![TxIn::spend([0xe0 + tag; 32], 0)], outputs: vec![TxOut { value: 1000 + tag as u64, script: script::p2pkh(&script::h20(50 + tag)) }, TxOut { value: 2000 + tag as u64, script: script::p2pkh(&script::h20(60 + tag)) }], locktime: lt };
+        let twins = |tag: u8, range: std::ops::Range<usize>| -> (Tx, Tx) {
+            let mut seen: std::collections::HashMap<Vec<u8>, u32> = std::collections::HashMap::new();
+            for lt in 0..3_000_000u32 {
+                let t = mk(tag, lt);
+                let key = t.txid()[range.clone()].to_vec();
+                if let Some(prev) = seen.insert(key, lt) {
+                    return (mk(tag, prev), t);
+                }
+            }
+            (mk(tag, 0), mk(tag, 1))
+        };
+        let zero = |tag: u8, pos: usize| -> Tx {
+            for lt in 0..3_000_000u32 {
+                let t = mk(tag, lt);
+                if t.txid()[pos] == 0 {
+                    return t;
+                }
+            }
+            mk(tag, 0)
+        };
+        let (a1, a2) = twins(1, 0..4);
+        let (b1, b2) = twins(2, 28..32);
+        let (z1, z2) = (zero(3, 0), zero(4, 31));
+        let spend = |t: &Tx, k: u8| Tx { version: 1, segwit: false, inputs: vec![TxIn::spend(t.txid(), 0)], outputs: vec![TxOut { value: 5, script: script::p2pkh(&script::h20(70 + k)) }], locktime: 0 };
+        let spenders = vec![spend(&a1, 1), spend(&b2, 2), spend(&z1, 3), spend(&z2, 4)];
+        cb.push(vec![a1, a2, b1, b2, z1, z2]);
+        cb.push(spenders);
+        v.push(("txid twins (equal first / last 4 bytes) and txids with a zero first / last byte, one of each spent".to_string(), cb));
+    }
     // a big UTXO set: 250 000 unspent outputs over 40 addresses (5 transactions of 50 000 outputs), 10 000 of them spent again
-    {
+    if !want(&v) {
+        skip(&mut v);
+    } else {
         let mut cb = ChainBuilder::with_genesis(coin);
         let mut txids = Vec::new();
         let mut txs = Vec::new();
@@ -374,7 +423,7 @@ pub fn run(prop: &str) -> Report {
         }
         // the special worlds (output-index widths, large values, every script kind, big UTXO set): all of them on bitcoin,
         // all but the last (250 000 outputs) on the other coins
-        let n_special = index_width_cases(coin(cname)).len();
+        let n_special = index_width_cases(coin(cname), Some(usize::MAX)).len();
         for k in 0..n_special {
             if k + 1 < n_special || cname == "bitcoin" {
                 items.push(Item::W(cname, k));
@@ -397,7 +446,7 @@ pub fn run(prop: &str) -> Report {
                 Item::H(hi, cname, start) => judge_history(prop, c08, &wk, coin(cname), &hist[*hi], *start, acc),
                 Item::W(cname, k) => {
                     let cn = coin(cname);
-                    let (label, cb) = index_width_cases(cn).remove(*k);
+                    let (label, cb) = index_width_cases(cn, Some(*k)).remove(*k);
                     let world = World::simple(cn, &cb.blocks, 0);
                     let all = cb.mblocks();
                     run_and_judge(prop, c08, &wk, cn, &world, &all, None, &label, acc, false);
